@@ -49,6 +49,7 @@ func c20Dialer(kind int) {
 		case 4:
 			c := fakenet.NewTCPConn("10.0.0.9:40000", address)
 			c.FailWrites = 1000000
+			c.FailAccept = rt.Int("accepted-before-failing", 0, 40)
 			return c, nil
 		}
 		return fakenet.NewTCPConn("10.0.0.9:40000", address), nil
@@ -67,6 +68,7 @@ func VC20_ClientTransport() {
 		in := fakenet.NewTCPConn("10.0.0.9:5060", "10.0.0.1:4000")
 		if inbound == 2 {
 			in.FailWrites = 1000000
+			in.FailAccept = rt.Int("accepted-before-failing", 0, 40)
 		}
 		primary, _ = NewTCPClientTransportWithConn(in)
 	}
@@ -75,6 +77,7 @@ func VC20_ClientTransport() {
 		if recon == 2 {
 			stale := fakenet.NewTCPConn("10.0.0.9:40001", "10.0.0.1:5060")
 			stale.FailWrites = 1
+			stale.FailAccept = rt.Int("accepted-before-failing", 0, 40)
 			tc.conn = stale
 		}
 		c20Dialer(recon)
@@ -135,6 +138,7 @@ func VC20_TCPBackend() {
 	if state == 1 {
 		stale := fakenet.NewTCPConn("10.0.0.9:40001", "10.0.0.2:5060")
 		stale.FailWrites = 1
+		stale.FailAccept = rt.Int("accepted-before-failing", 0, 40)
 		tb.conn = stale
 	}
 	c20Dialer([]int{1, 3, 4}[dest])
@@ -213,12 +217,14 @@ func VC20_AnyFaults() {
 		}
 		c := fakenet.NewTCPConn("10.0.0.9:40000", address)
 		c.WriteFault = fault
+		c.FailAccept = rt.Int("accepted-before-failing", 0, 40)
 		return c, nil
 	}
 	var primary ClientTransport
 	if rt.Bool("inbound") {
 		in := fakenet.NewTCPConn("10.0.0.9:5060", "10.0.0.1:4000")
 		in.WriteFault = fault
+		in.FailAccept = rt.Int("accepted-before-failing", 0, 40)
 		primary, _ = NewTCPClientTransportWithConn(in)
 	}
 	tc, _ := NewTCPClientTransport("10.0.0.1", 5060, "10.0.0.9", nil)
